@@ -47,6 +47,7 @@ struct Manifold : ob::Constraint
     std::string name, params;  // params: everything needed to rebuild the constraint from a witness
     EV lo, hi;                 // ambient bounds
     bool compact = true;
+    bool cutByBox = false;     // one face of the ambient box cuts a cap off the (compact) manifold
     Manifold(unsigned n, unsigned co, std::string nm) : ob::Constraint(n, co), name(std::move(nm)) {}
     using ob::Constraint::function;
     using ob::Constraint::jacobian;
@@ -193,6 +194,15 @@ static std::shared_ptr<Manifold> makeManifoldRaw(Rng &rng, int kind)
         double margin = rng.uni(0.2, 1.0);
         M.lo = c0 - half - EV::Constant(half.size(), margin);
         M.hi = c0 + half + EV::Constant(half.size(), margin);
+        // a fifth of the compact manifolds are cut by one face of the ambient box (a cap lies outside the bounds)
+        if (rng.coin(0.2))
+        {
+            int j = (int)rng.ui((uint64_t)half.size());
+            double f = rng.uni(0.6, 0.97);
+            if (rng.coin()) M.hi[j] = c0[j] + f * half[j];
+            else M.lo[j] = c0[j] - f * half[j];
+            M.cutByBox = true;
+        }
     };
     switch (kind)
     {
@@ -453,6 +463,7 @@ static void runCase(Sink &sink, const Args &a, long cs)
         }
         sink.count(std::string("c16_cases_") + SPACE_NAME[spaceKind]);
         sink.count("c16_cases_manifold_" + man->name);
+        if (man->cutByBox) sink.count("c16_cases_manifold_cut_by_ambient_box");
 
         auto smp = css->allocStateSampler();
         ob::ScopedState<> p(css), q(css), o(css);
@@ -603,6 +614,32 @@ static void runCase(Sink &sink, const Args &a, long cs)
         {
             auto pdef = std::make_shared<ob::ProblemDefinition>(csi);
             double thr = rng.coin() ? delta : rng.uni(0.01, 0.1);
+            // a third of the plans aim at a goal right next to where the ambient box cuts the manifold (if it does): the states
+            // the samplers clamp into the box there are off the manifold (known finding) and must not become path vertices
+            if (rng.coin(0.33))
+            {
+                for (int t = 0; t < 150; ++t)
+                {
+                    smp->sampleUniform(p.get());
+                    if (X.on(p.get()) || !X.clamped(p.get())) continue;
+                    sink.count("c16_stat_clamped_off_manifold_samples_seen");
+                    EV cl = asVec(p.get()), g = cl;
+                    // step a little towards the middle of the box, then back onto the manifold
+                    for (int i = 0; i < n; ++i) g[i] += 0.03 * ((man->lo[i] + man->hi[i]) / 2 - g[i]) / std::max(1e-9, (man->hi[i] - man->lo[i]) / 2);
+                    if (!man->project(g)) continue;
+                    bool in = true;
+                    for (int i = 0; i < n && in; ++i) in = g[i] > man->lo[i] && g[i] < man->hi[i];
+                    double dg = (g - cl).norm();
+                    if (!in || dg > 0.08) continue;
+                    q->as<ob::ConstrainedStateSpace::StateType>()->copy(g);
+                    if (!X.on(q.get()) || !csi->isValid(q.get()) || css->distance(start.get(), q.get()) < 4 * delta) continue;
+                    goal->as<ob::ConstrainedStateSpace::StateType>()->copy(g);
+                    if (spaceKind > 0) css->as<ob::AtlasStateSpace>()->anchorChart(goal.get());
+                    thr = std::max(thr, std::min(0.15, 1.5 * dg));
+                    sink.count("c16_plans_goal_next_to_bounds_cut");
+                    break;
+                }
+            }
             pdef->setStartAndGoalStates(start, goal, thr);
             ob::PlannerPtr pl;
             double range = 0;
@@ -707,6 +744,74 @@ static void runCase(Sink &sink, const Args &a, long cs)
                 }
             }
             pl->clear();
+        }
+
+        // ---------------- tolerance tightened while the space is in use (charts, anchors and the sampler exist already):
+        // "within its tolerance" is the tolerance the constraint has now. Inputs are fresh samples (projected at the new tolerance).
+        if (rng.coin(0.4))
+        {
+            const double tol2 = std::max(1e-9, tol * rng.logUni(1e-3, 0.3));
+            man->setTolerance(tol2);
+            X.tol = tol2;
+            X.tolF = tol2 * (1 + 1e-9);
+            sink.count("c16_tolerance_tightened_cases");
+            const J how = J().str("history", "Constraint::setTolerance() tightened after charts were built").num("tolerance_before", tol).num("tolerance_now", tol2);
+            std::vector<std::pair<EV, EV>> fresh;
+            auto asVec2 = [&](const ob::State *s) { return EV(*s->as<ob::ConstrainedStateSpace::StateType>()); };
+            for (int i = 0; i < 25; ++i)
+            {
+                smp->sampleUniform(p.get());
+                sink.count("c16_uniform_samples");
+                J h1 = how;
+                // (the atlas samplers fall back on the centre of a chart when rejection sampling takes too long, and the centres
+                // of charts built earlier were projected at the earlier tolerance: only a statistic for these spaces)
+                if (spaceKind > 0)
+                {
+                    if (!X.on(p.get()))
+                    {
+                        sink.count("c16_stat_atlas_uniform_sample_off_after_tolerance_change");
+                        continue;
+                    }
+                }
+                else if (!X.expectOn(p.get(), "sample-off-manifold", h1.str("call", "sampleUniform"))) continue;
+                double dn = rng.uni(1, 10) * delta;
+                smp->sampleUniformNear(q.get(), p.get(), dn);
+                sink.count("c16_near_samples");
+                J h2 = how;
+                bool qOn = X.expectOn(q.get(), "near-off-manifold", h2.str("call", "sampleUniformNear").num("distance", dn).arr("near", X.vec(p.get())));
+                if (qOn && fresh.size() < 5) fresh.push_back({asVec2(p.get()), asVec2(q.get())});
+                double sd = rng.uni(0.5, 4) * delta;
+                smp->sampleGaussian(q.get(), p.get(), sd);
+                sink.count("c16_gaussian_samples");
+                J h3 = how;
+                X.expectOn(q.get(), "gaussian-off-manifold", h3.str("call", "sampleGaussian").num("stdDev", sd).arr("mean", X.vec(p.get())));
+            }
+            static const double TG2[] = {0.1, 0.5, 0.9};
+            for (auto &pr : fresh)
+            {
+                p->as<ob::ConstrainedStateSpace::StateType>()->copy(pr.first);
+                q->as<ob::ConstrainedStateSpace::StateType>()->copy(pr.second);
+                for (double t : TG2)
+                {
+                    css->interpolate(p.get(), q.get(), t, o.get());
+                    sink.count("c16_interpolated_states");
+                    J h4 = how;
+                    if (!X.expectOn(o.get(), "interpolate-off-manifold", h4.num("t", t).arr("from", X.vec(p.get())).arr("to", X.vec(q.get())))) break;
+                }
+                if (spaceKind != 2)
+                {
+                    std::vector<ob::State *> geo;
+                    bool ok = css->discreteGeodesic(p.get(), q.get(), false, &geo);
+                    sink.count(ok ? "c16_geodesics_ok" : "c16_geodesics_failed");
+                    if (ok)
+                        for (size_t k = 0; k < geo.size(); ++k)
+                        {
+                            J h5 = how;
+                            if (!X.expectOn(geo[k], "geodesic-off-manifold", h5.i("index", (long)k).arr("from", X.vec(p.get())).arr("to", X.vec(q.get())))) break;
+                        }
+                    for (auto *g : geo) css->freeState(g);
+                }
+            }
         }
     }
     catch (std::exception &e)
